@@ -741,9 +741,10 @@ def r3_closed_forms(program, folder, rep):
                         body, arg0 = rr[0], ("param", formals(nd[0])[0])
             if body is not None and body[0] == "binop" and body[1] == "Add":
                 parts = [plain(body[2]), plain(body[3])]
-                rnd = ("call", ("attr", ("global", "random"), "random"), (),
-                       ())
-                okk = rnd in parts and ("comp", arg0, 0) in parts
+                # <any generator>.random(): a fraction in [0, 1)
+                okk = any(x_[0] == "call" and x_[1][0] == "attr" and
+                          x_[1][2] == "random" and not x_[2] and not x_[3]
+                          for x_ in parts) and ("comp", arg0, 0) in parts
     rep.check(okk, "C11-R3", qual(fn2), "the shortest candidate is chosen "
               "(ties broken randomly by a fraction < 1)",
               construct="candidate selection", node=fn2)
